@@ -99,10 +99,10 @@ theorem stepLive_sim (fc : FC) (a : Abs) (hh : fc.held = false) (I : FI fc) (hl 
     unfold FC.processSlot
     rw [withLock_free fc hh]
     simp only [finish, relock_pa fc hh]
-    exact ⟨ref_processSlot fc a I r p s j f hok.2, fun _ => trivial⟩
+    exact ⟨ref_processSlot fc a I r p s j f hok.2.1, fun _ => trivial⟩
   | block p rt s j f =>
     obtain ⟨pr', b, e, _, _⟩ := processBlock_spec fc.pa I.wf p rt s j f
-    have hb := ref_processBlock fc a I r p rt s j f pr' b e (fun hn => refersTo_false fc a r rt (hok.2.2 hn))
+    have hb := ref_processBlock fc a I r p rt s j f pr' b e (fun hn => refersTo_false fc a r rt (hok.2.2.1 hn))
     show (match (finish (fc.processBlock p rt s j f) _).1 with | .live fc' => Ref fc' _ | _ => False) ∧
       (_ → (finish (fc.processBlock p rt s j f) Ans.bool).2 = Ans.bool (a.processBlock p rt s j f).2)
     unfold FC.processBlock
@@ -118,7 +118,7 @@ theorem stepLive_sim (fc : FC) (a : Abs) (hh : fc.held = false) (I : FI fc) (hl 
   | justify t j f b =>
     have I0 : FI { fc with pa := { fc.pa with sinkLog := [] } } :=
       ⟨wf_sinkLog I.wf [], chain_congr (pr := fc.pa) (pr' := { fc.pa with sinkLog := [] }) rfl rfl rfl (fun _ => rfl) I.chain,
-        I.nz, I.vin, fun i n hn => by
+        I.nz, fun i n hn => by
         have := I.w i n hn
         rw [this]
         exact (wsumFrom_congr fc.pa { fc.pa with sinkLog := [] } fc.balances i fc.votes 0 (fun _ _ => rfl)).symm⟩
